@@ -264,13 +264,15 @@ class NetworkService(ModelElement):
             pass
         elif len(sites) == 1:
             # set the site property if possible
+            inferred_site = sites.pop()
             old_site = self.site
-            if not self.site:
-                self.site = sites.pop()
-
-            if old_site and old_site != self.site:
-                raise TopologyException(f"For service {self.name} originally specified site {old_site} does not"
-                                        f"match the site {self.site} inferred from connected interfaces.")
+            if not old_site:
+                # nothing to record if the owning node itself has no site (e.g. a switch without one)
+                if inferred_site:
+                    self.site = inferred_site
+            elif inferred_site and old_site != inferred_site:
+                raise TopologyException(f"For service {self.name} originally specified site {old_site} does not "
+                                        f"match the site {inferred_site} inferred from connected interfaces.")
         else:
             if self.site:
                 raise TopologyException(f"Service {self.name} of type {self.type} is multi-site, "
